@@ -230,7 +230,7 @@ def run_case(desc):
                 o = daggen.all_outputs(case)[-1]
                 sample = {"case": daggen.describe(case), "output": o,
                           "needed_functions": daggen.needed_funcs(case, [o])}
-    return v.result(keys=keys, sample=sample)
+    return v.result(evaluations=v.counters.get("lazy_calls", 0), keys=keys, sample=sample)
 
 
 def finalize(agg, tier, seed):
